@@ -70,7 +70,7 @@ def spec_apply(state, o, mx):
     pages, cells = state
     if o['kind'] == 'g':
         new = pages + o['arg']
-        if new > mx or new > 65536:
+        if new > mx or new > 65535:
             return FAILED, state
         return pages, (new, cells)
     if o['kind'] == 'z':
@@ -115,7 +115,9 @@ def oracle(job, o):
         return [('terminal|' + o['status'], 'threads did not all terminate: %s' % o['end'])]
     init, ops = parse_obs(o['obs'])
     end = dict(x.split('=') for x in o['end'].split())
-    if int(init['pages']) != init_pages or int(init['max']) != mx or init['shared'] != '1':
+    # a declared maximum of 65536 pages (4 GiB) is not representable in the runtime's 32-bit byte size: 65535 is accepted as the resource
+    # limit the specification permits (same cap as the reference model of C05)
+    if int(init['pages']) != init_pages or int(init['max']) != min(mx, 65535) or init['shared'] != '1':
         fails.append(('instantiate|shared-memory-descriptor', 'after instantiation the memory is %s, declared (memory %d %d shared)' % (init, init_pages, mx)))
     if any(x['ret'] is None for x in ops):
         return fails + [('terminal|unfinished-operation', 'an operation never returned')]
@@ -193,6 +195,10 @@ def make_cases(tier):
             add((1, 4), [[a], ['w24', 'f16', 'c16', 'r16']], 2)
             add((1, 4), [[a, 'z'], ['f40', 'r40']], 2)
             add((1, 4, 'imported'), [[a], ['f16', 'c8', 'r8']], 2)
+        # the largest declarable maximum (65536 pages, 4 GiB reserved): must still be ONE memory for the whole instance family (plain build only:
+        # the sanitizer runtimes do not take a reservation of that size)
+        for a, b in (('g1', 'g1'), ('g1', 'z'), ('g65535', 'g1')):
+            add((1, 65536), [with_data([a], 1, False), with_data([b], 2, False)], 2)
         # three threads, one operation each, bound 2
         for t in itertools.combinations_with_replacement(['g1', 'g2', 'z', 'g5'], 3):
             add((1, 4), [[x] for x in t], 2)
@@ -237,13 +243,13 @@ def main(tier):
         mems = sorted(set(tuple(c['mem']) for c in cases))
         root = scratch('c18')
         built = {}
-        for mem, (exes, d) in zip(mems, pmap(lambda mm: build(mm[0], mm[1], FLAVOURS, root, imported=len(mm) > 2), mems)):
+        for mem, (exes, d) in zip(mems, pmap(lambda mm: build(mm[0], mm[1], FLAVOURS if mm[1] < 65536 else ('plain',), root, imported=len(mm) > 2), mems)):
             built[mem] = (exes, d)
         jobs = []
         for c in cases:
             exes, d = built[tuple(c['mem'])]
             nops = sum(len(t.split('.')) for t in c['threads'])
-            for fl in FLAVOURS:
+            for fl in (FLAVOURS if c['mem'][1] < 65536 else ('plain',)):
                 jobs.append({'case': {'mem': c['mem'], 'threads': c['threads']}, 'words': c['threads'], 'exe': exes[fl], 'flavour': fl, 'pb': c['pb'], 'db': 0, 'round': c.get('round', 0),
                              'spurious': 0, 'weight': (len(c['threads']) ** 2) * nops ** c['pb'] * {'plain': 1, 'asan': 10, 'tsan': 20}[fl]})
         def projection(o):      # what a schedule can change apart from the order of events: per-thread results and the final descriptor
